@@ -6,6 +6,8 @@ pub mod stubs;
 mod c05;
 #[cfg(kani)]
 mod c09;
+#[cfg(kani)]
+mod c06;
 
 #[cfg(kani)]
 #[kani::proof]
